@@ -441,6 +441,19 @@ func (p *proxyConn) writeResponse(res *http.Response) error {
 		}
 	}
 
+	// A body of unknown length that is not chunked is delimited by the end of the connection
+	// (this is also what is left after the transport has decompressed a gzip response it
+	// solicited itself). If the connection is to be kept open the client could not tell where
+	// such a body ends, so chunk it, or close if the client does not understand chunked coding.
+	connectOK := req.Method == http.MethodConnect && res.StatusCode/100 == 2
+	if !connectOK && !res.Close && !isHeaderOnlySpec(res) && res.ContentLength < 0 && len(res.TransferEncoding) == 0 {
+		if req.ProtoAtLeast(1, 1) && res.ProtoAtLeast(1, 1) {
+			res.TransferEncoding = []string{"chunked"}
+		} else {
+			res.Close = true
+		}
+	}
+
 	if res.Close {
 		res.Header.Add("Connection", "close")
 	}
